@@ -4,7 +4,7 @@ import os, shutil, sys
 V = os.path.dirname(os.path.dirname(os.path.abspath(__file__)))
 sys.path.insert(0, os.path.join(V, 'tools'))
 import try_patch as tp
-F = {'c': 'disk_objectstore/container.py', 'u': 'disk_objectstore/utils.py', 'b': 'disk_objectstore/backup_utils.py', 'd': 'disk_objectstore/database.py'}
+F = {'c': 'disk_objectstore/container.py', 'u': 'disk_objectstore/utils.py', 'b': 'disk_objectstore/backup_utils.py', 'd': 'disk_objectstore/database.py', 'l': 'disk_objectstore/cli.py'}
 f, old, new = F[sys.argv[1]], sys.argv[2].encode().decode('unicode_escape'), sys.argv[3].encode().decode('unicode_escape')
 props = sys.argv[4:] or [f'C{i:02d}' for i in range(1, 19)]
 d = tp.scratch_copy()
